@@ -456,6 +456,10 @@ def intrinsics():
         if all(isinstance(x, int) and not isinstance(x, bool) for x in xs):
             return xs
         raise A.Unsupported("integer operation on %r" % (xs,))
+    # floats are opaque symbols; a symbol may carry props["fclass"] in {"finite", "nan", "inf", "-inf"} (default finite)
+    I["core::f64::<impl f64>::is_finite"] = lambda ip, n, a: getattr(d(a[0]), "props", {}).get("fclass", "finite") == "finite"
+    I["core::f64::<impl f64>::is_nan"] = lambda ip, n, a: getattr(d(a[0]), "props", {}).get("fclass", "finite") == "nan"
+    I["core::f64::<impl f64>::is_infinite"] = lambda ip, n, a: getattr(d(a[0]), "props", {}).get("fclass", "finite") in ("inf", "-inf")
     I["core::cmp::Ord::max"] = lambda ip, n, a: max(_ints(a))
     I["core::cmp::Ord::min"] = lambda ip, n, a: min(_ints(a))
     for t in ("usize", "u64", "u32", "i64"):
